@@ -3,7 +3,7 @@
 //! G: one spec-encoded instance of every request the back-end server implements, of every
 //!    back-end-initiated request, and of every reply/ack kind (front end, proxy, GPU), descriptors
 //!    on byte 0; every split into 2 segments, every split into 3 segments for short messages (a
-//!    selection for long ones), byte-by-byte delivery; every cut offset followed by a half-close;
+//!    selection for long ones), byte-by-byte delivery; every cut offset (peer half-closes; for the back-end server also: peer leaves a reply unread and closes completely, so the read fails with ECONNRESET) followed by a half-close;
 //!    sender side: bursts of maximum-size messages on a non-blocking socket with a minimal send
 //!    buffer against a slow reader.
 //! O: segmented delivery gives the same result and handler log as unsplit delivery (and is
@@ -53,6 +53,10 @@ pub struct Case {
     pub splits: Vec<usize>,
     /// Some(k): deliver only the first k bytes, then half-close
     pub cut: Option<usize>,
+    /// (back-end server, with `cut`) the peer leaves a reply unread and closes completely after the cut bytes: the
+    /// receiver's read then fails with ECONNRESET instead of returning 0
+    #[serde(default)]
+    pub unread_close: bool,
 }
 
 #[derive(Debug, Clone, PartialEq, Eq)]
@@ -163,7 +167,7 @@ fn deliver(sock: RawFd, probe: RawFd, msg: &[u8], fds: &[RawFd], splits: &[usize
     }
 }
 
-fn be_server_outcome(idx: usize, splits: &[usize], cut: Option<usize>) -> Outcome {
+fn be_server_outcome(idx: usize, splits: &[usize], cut: Option<usize>, unread_close: bool) -> Outcome {
     let msgs = be_server_msgs();
     let (code, body, nfds) = msgs[idx].clone();
     let (peer, srv) = UnixStream::pair().unwrap();
@@ -182,6 +186,11 @@ fn be_server_outcome(idx: usize, splits: &[usize], cut: Option<usize>) -> Outcom
         let _ = server.handle_request();
     }
     let _ = rawpeer::drain(peer.as_raw_fd(), 65536);
+    if unread_close {
+        // a reply the peer never reads
+        rawpeer::send_all(peer.as_raw_fd(), &spec::request(fe::GET_FEATURES, false, &[]), &[]).unwrap();
+        let _ = server.handle_request();
+    }
     let base = rec.lock().unwrap().log.len();
     let msg = spec::request(code, false, &body);
     let fds: Vec<OwnedFd> = fresh_fds(nfds, FdKind::Memfd);
@@ -192,13 +201,19 @@ fn be_server_outcome(idx: usize, splits: &[usize], cut: Option<usize>) -> Outcom
     });
     deliver(peer.as_raw_fd(), probe.as_raw_fd(), &msg, &raw, splits, cut, &|| h.is_finished());
     drop(fds);
+    let mut peer = Some(peer);
     if cut.is_some() {
-        rawpeer::shutdown_wr(&peer);
+        if unread_close {
+            peer.take(); // full close with unread data in the peer's receive queue
+        } else {
+            rawpeer::shutdown_wr(peer.as_ref().unwrap());
+        }
     }
     let p2 = probe.try_clone().unwrap();
     let (r, hung) = done_or_hung(h, move || {
         let _ = p2.shutdown(std::net::Shutdown::Both);
     });
+    drop(peer);
     let log = format!("{:?}", rec.lock().unwrap().log[base..].iter().map(|c| strip_ids(c)).collect::<Vec<_>>());
     Outcome { result: r.map(|x| x.0).unwrap_or(Err("receiver thread lost".into())), log, hung }
 }
@@ -421,8 +436,12 @@ pub fn msg_len(t: &Target) -> usize {
 }
 
 pub fn outcome(t: &Target, splits: &[usize], cut: Option<usize>) -> Outcome {
+    outcome_ex(t, splits, cut, false)
+}
+
+pub fn outcome_ex(t: &Target, splits: &[usize], cut: Option<usize>, unread_close: bool) -> Outcome {
     match t {
-        Target::BeServer(i) => be_server_outcome(*i, splits, cut),
+        Target::BeServer(i) => be_server_outcome(*i, splits, cut, unread_close),
         Target::FeServer(i) => fe_server_outcome(*i, splits, cut),
         Target::FeCall(i) => fe_call_outcome(*i, splits, cut),
         Target::ProxyAck => proxy_ack_outcome(splits, cut),
@@ -432,7 +451,10 @@ pub fn outcome(t: &Target, splits: &[usize], cut: Option<usize>) -> Outcome {
 
 pub fn run_case(ctx: &mut Ctx, c: &Case, base: &Outcome) -> Result<(), String> {
     let len = msg_len(&c.target);
-    let o = outcome(&c.target, &c.splits, c.cut);
+    let o = outcome_ex(&c.target, &c.splits, c.cut, c.unread_close);
+    if c.unread_close {
+        ctx.class("cut_after_unread_reply_then_close");
+    }
     let is_server = matches!(c.target, Target::BeServer(_) | Target::FeServer(_));
     match c.cut {
         None => {
@@ -470,7 +492,9 @@ pub fn run_case(ctx: &mut Ctx, c: &Case, base: &Outcome) -> Result<(), String> {
                 Err(e) => {
                     if is_server {
                         let disc = e == "Disconnected";
-                        if disc != (k == 0) {
+                        // a reset connection (peer closed with unread data) at a boundary is not a clean disconnect: there
+                        // either report is fine; inside a message 'Disconnected' is never right
+                        if (disc && k != 0) || (!disc && k == 0 && !c.unread_close) {
                             return Err(format!("{:?}: stream ended after {k} of {len} bytes: error {e} ('Disconnected' is prescribed exactly at a message boundary)", c.target));
                         }
                         if o.log != "[]" {
@@ -833,7 +857,7 @@ pub fn run(ctx: &mut Ctx) {
             splits.push((1..len).collect()); // byte by byte
         }
         for s in splits {
-            cases.push((Case { target: t.clone(), splits: s, cut: None }, ti));
+            cases.push((Case { target: t.clone(), splits: s, cut: None, unread_close: false }, ti));
         }
         let cuts: Vec<usize> = if len > 600 && ctx.tier == crate::engine::Tier::Quick {
             (0..len).filter(|k| *k <= 40 || k % 53 == 0 || k + 40 >= len).collect()
@@ -841,7 +865,10 @@ pub fn run(ctx: &mut Ctx) {
             (0..len).collect()
         };
         for k in cuts {
-            cases.push((Case { target: t.clone(), splits: vec![], cut: Some(k) }, ti));
+            cases.push((Case { target: t.clone(), splits: vec![], cut: Some(k), unread_close: false }, ti));
+            if matches!(t, Target::BeServer(_)) {
+                cases.push((Case { target: t.clone(), splits: vec![], cut: Some(k), unread_close: true }, ti));
+            }
         }
     }
     // the unsplit delivery of a well-formed message must be accepted in the first place
